@@ -64,6 +64,8 @@ def layer_cases(draw, names=None):
         N, C, F = d(st.integers(1, 2)), d(st.integers(1, 2)), d(st.integers(1, 2))
         if N * C * int(np.prod([x[0] for x in dims])) > 24:
             N = C = 1
+        while len(dims) > 1 and int(np.prod([x[0] for x in dims])) > 250:
+            dims = dims[:-1]  # (keeps the exact-derivative reference within its element budget)
         x = _leaf(b, d, [N, C] + [t[0] for t in dims], first=True)
         w = _leaf(b, d, [F, C] + [t[1] for t in dims])
         p = {"stride": _ints(d, [t[2] for t in dims]), "padding": _ints(d, [t[3] for t in dims]),
